@@ -37,6 +37,9 @@ Step(mm, e) ==
     [] e.ev = "quiet"   -> OnQuiet(mm, e)
     [] e.ev = "advance" -> OnAdvance(mm, e)
     [] e.ev = "ret"     -> OnRet(mm, e)
+    [] e.ev = "tgate"   -> OnTGate(mm, e)
+    [] e.ev = "termask" -> OnTermAsk(mm, e)
+    [] e.ev = "sret"    -> OnSRet(mm, e)
     [] e.ev = "leak"    -> OnLeak(mm, e)
     [] e.ev = "hang"    -> OnHang(mm, e)
     [] e.ev = "panic"   -> OnPanic(mm, e)
